@@ -146,7 +146,7 @@ def socksResolve (p : KParams) (rname : String) (host : Bytes) (cstr : Bool) (po
       let ascii := host.all (fun b => b.toNat < 128 && b.toNat > 0)
       let hs := String.ofList (host.map (fun b => Char.ofNat b.toNat))
       let req := ((s.net.cfg.ipsOf node).head?).getD "?"
-      let s := s.emit ("L lookup t=" ++ toString s.k.now ++ " req=" ++ req ++ " name=" ++ hexOf host)
+      let s := s.emitL ("L lookup t=" ++ toString s.k.now ++ " req=" ++ req ++ " name=" ++ hexOf host)
       let (err, ips, lat) := (if ascii then s.net.cfg.dns.lookup hs else none).getD (Ec.hostNotFound, [], 100000000)
       let x := r.resolveName {} s.k.now err ips lat port hn
       applyREffs p rname x.2 (s.setR rname x.1)
